@@ -390,6 +390,11 @@ def build(tier, repo):
                   "backtracks into the domain instead of failing")
     _check_domain(w, r5)
     r5.require(3)
+    from .. import solver_rules as sr5
+    r6 = chk.rule("C10-R6", "the validation of a supplied initial s and of a supplied initial z are mirror images (s<->z, primalstart<->dualstart)",
+                  "argument errors (a starting point outside the cone) raise ValueError before the iteration; s, z stay interior")
+    chk.note_analysed("start_validations", sr5.start_mirror_rule(r6, w, [("coneprog", "conelp"), ("coneprog", "coneqp")]))
+    r6.require(1)
     return chk
 
 
